@@ -184,6 +184,9 @@ impl TcpHeaderBuilder {
 //@ rewrite `Control::default\(\)` => `Control(0)` ## derive(Default) on the u8 newtype is zero
 //@ contract
     ensures r.0.src_port == src_port, r.0.dst_port == dst_port, r.0.seq == seq, r.0.wnd == 0, r.0.ack == 0, r.0.urg == 0, r.0.ctl.0 == 0,   //# fresh_header [C08]
+        !r.0.ctl.sfin() && !r.0.ctl.ssyn() && !r.0.ctl.srst() && !r.0.ctl.spsh() && !r.0.ctl.sack() && !r.0.ctl.surg(),
+//@ start
+        proof { lemma_zero_flags(0, 0); lemma_zero_flags(0, 1); lemma_zero_flags(0, 2); lemma_zero_flags(0, 3); lemma_zero_flags(0, 4); lemma_zero_flags(0, 5); }
 //@ end
 //@ item sim/elvis-core/src/protocols/tcp/tcp_parsing.rs :: impl TcpHeaderBuilder / fn wnd id=TcpHeaderBuilder.wnd
 //@ rewrite `\bself\b` => `vx_self` ## Verus does not support `mut self` parameters: the parameter is rebound to a mutable local (next two steps)
@@ -192,6 +195,7 @@ impl TcpHeaderBuilder {
         let mut vx_self = self;
 //@ contract
     ensures r.0 == (TcpHeader { wnd: wnd, ..self.0 }),
+        r.0.ctl.sfin() == self.0.ctl.sfin() && r.0.ctl.ssyn() == self.0.ctl.ssyn() && r.0.ctl.srst() == self.0.ctl.srst() && r.0.ctl.spsh() == self.0.ctl.spsh() && r.0.ctl.sack() == self.0.ctl.sack() && r.0.ctl.surg() == self.0.ctl.surg(),   // the control bits flow through unchanged except the one being set
 //@ end
 //@ item sim/elvis-core/src/protocols/tcp/tcp_parsing.rs :: impl TcpHeaderBuilder / fn ack id=TcpHeaderBuilder.ack
 //@ rewrite `\bself\b` => `vx_self` ## Verus does not support `mut self` parameters: the parameter is rebound to a mutable local (next two steps)
@@ -200,6 +204,9 @@ impl TcpHeaderBuilder {
         let mut vx_self = self;
 //@ contract
     ensures r.0 == (TcpHeader { ack: ack, ctl: with_flag(self.0.ctl, 4, true), ..self.0 }),
+        r.0.ctl.sfin() == self.0.ctl.sfin() && r.0.ctl.ssyn() == self.0.ctl.ssyn() && r.0.ctl.srst() == self.0.ctl.srst() && r.0.ctl.spsh() == self.0.ctl.spsh() && r.0.ctl.sack() && r.0.ctl.surg() == self.0.ctl.surg(),   // the control bits flow through unchanged except the one being set
+//@ after 1 `vx_self.0.ctl.set_ack(true);`
+        proof { lemma_with_flag(self.0.ctl.0, 4, true, 0); lemma_with_flag(self.0.ctl.0, 4, true, 1); lemma_with_flag(self.0.ctl.0, 4, true, 2); lemma_with_flag(self.0.ctl.0, 4, true, 3); lemma_with_flag(self.0.ctl.0, 4, true, 4); lemma_with_flag(self.0.ctl.0, 4, true, 5); }
 //@ end
 //@ item sim/elvis-core/src/protocols/tcp/tcp_parsing.rs :: impl TcpHeaderBuilder / fn rst id=TcpHeaderBuilder.rst
 //@ rewrite `\bself\b` => `vx_self` ## Verus does not support `mut self` parameters: the parameter is rebound to a mutable local (next two steps)
@@ -208,6 +215,9 @@ impl TcpHeaderBuilder {
         let mut vx_self = self;
 //@ contract
     ensures r.0 == (TcpHeader { ctl: with_flag(self.0.ctl, 2, true), ..self.0 }),
+        r.0.ctl.sfin() == self.0.ctl.sfin() && r.0.ctl.ssyn() == self.0.ctl.ssyn() && r.0.ctl.srst() && r.0.ctl.spsh() == self.0.ctl.spsh() && r.0.ctl.sack() == self.0.ctl.sack() && r.0.ctl.surg() == self.0.ctl.surg(),   // the control bits flow through unchanged except the one being set
+//@ after 1 `vx_self.0.ctl.set_rst(true);`
+        proof { lemma_with_flag(self.0.ctl.0, 2, true, 0); lemma_with_flag(self.0.ctl.0, 2, true, 1); lemma_with_flag(self.0.ctl.0, 2, true, 2); lemma_with_flag(self.0.ctl.0, 2, true, 3); lemma_with_flag(self.0.ctl.0, 2, true, 4); lemma_with_flag(self.0.ctl.0, 2, true, 5); }
 //@ end
 //@ item sim/elvis-core/src/protocols/tcp/tcp_parsing.rs :: impl TcpHeaderBuilder / fn syn id=TcpHeaderBuilder.syn
 //@ rewrite `\bself\b` => `vx_self` ## Verus does not support `mut self` parameters: the parameter is rebound to a mutable local (next two steps)
@@ -216,6 +226,9 @@ impl TcpHeaderBuilder {
         let mut vx_self = self;
 //@ contract
     ensures r.0 == (TcpHeader { ctl: with_flag(self.0.ctl, 1, true), ..self.0 }),
+        r.0.ctl.sfin() == self.0.ctl.sfin() && r.0.ctl.ssyn() && r.0.ctl.srst() == self.0.ctl.srst() && r.0.ctl.spsh() == self.0.ctl.spsh() && r.0.ctl.sack() == self.0.ctl.sack() && r.0.ctl.surg() == self.0.ctl.surg(),   // the control bits flow through unchanged except the one being set
+//@ after 1 `vx_self.0.ctl.set_syn(true);`
+        proof { lemma_with_flag(self.0.ctl.0, 1, true, 0); lemma_with_flag(self.0.ctl.0, 1, true, 1); lemma_with_flag(self.0.ctl.0, 1, true, 2); lemma_with_flag(self.0.ctl.0, 1, true, 3); lemma_with_flag(self.0.ctl.0, 1, true, 4); lemma_with_flag(self.0.ctl.0, 1, true, 5); }
 //@ end
 //@ item sim/elvis-core/src/protocols/tcp/tcp_parsing.rs :: impl TcpHeaderBuilder / fn fin id=TcpHeaderBuilder.fin
 //@ rewrite `\bself\b` => `vx_self` ## Verus does not support `mut self` parameters: the parameter is rebound to a mutable local (next two steps)
@@ -224,6 +237,9 @@ impl TcpHeaderBuilder {
         let mut vx_self = self;
 //@ contract
     ensures r.0 == (TcpHeader { ctl: with_flag(self.0.ctl, 0, true), ..self.0 }),
+        r.0.ctl.sfin() && r.0.ctl.ssyn() == self.0.ctl.ssyn() && r.0.ctl.srst() == self.0.ctl.srst() && r.0.ctl.spsh() == self.0.ctl.spsh() && r.0.ctl.sack() == self.0.ctl.sack() && r.0.ctl.surg() == self.0.ctl.surg(),   // the control bits flow through unchanged except the one being set
+//@ after 1 `vx_self.0.ctl.set_fin(true);`
+        proof { lemma_with_flag(self.0.ctl.0, 0, true, 0); lemma_with_flag(self.0.ctl.0, 0, true, 1); lemma_with_flag(self.0.ctl.0, 0, true, 2); lemma_with_flag(self.0.ctl.0, 0, true, 3); lemma_with_flag(self.0.ctl.0, 0, true, 4); lemma_with_flag(self.0.ctl.0, 0, true, 5); }
 //@ end
 //@ item sim/elvis-core/src/protocols/tcp/tcp_parsing.rs :: impl TcpHeaderBuilder / fn build id=TcpHeaderBuilder.build
 //@ rewrite `\.map_err\(\|_\| ` => `.map_err(|_e| ` ## Verus needs a named closure parameter
@@ -419,6 +435,15 @@ impl Outgoing {
     ensures r == q_bytes(self.retransmit@),
 //@ end
 }
+impl Outgoing {
+//@ item sim/elvis-core/src/protocols/tcp/tcb/outgoing.rs :: impl Outgoing / fn reset id=Outgoing.reset
+//@ rewrite `self\.text = Default::default\(\);` => `self.text = Message::default();` ## inferred type of Default::default()
+//@ rewrite `self\.retransmit = Default::default\(\);` => `self.retransmit = VecDeque::new();` ## VecDeque::default() is VecDeque::new() (std)
+//@ rewrite `self\.oneshot = Default::default\(\);` => `self.oneshot = Vec::new();` ## Vec::default() is Vec::new() (std)
+//@ contract
+    ensures final(self).text.wf(), final(self).text@.len() == 0, final(self).retransmit@.len() == 0, final(self).oneshot@.len() == 0,
+//@ end
+}
 impl Transmit {
 //@ item sim/elvis-core/src/protocols/tcp/tcb/outgoing.rs :: impl Transmit / fn new id=Transmit.new
 //@ contract
@@ -536,7 +561,11 @@ pub open spec fn tcb_inv(t: Tcb) -> bool {
     && rtx_wf(t.outgoing.retransmit@) && t.outgoing.text.wf()
     // nothing has been acknowledged before the peer's SYN arrives
     && (t.state == State::SynSent ==> t.snd.una == t.snd.iss)
+    // every segment waiting on the reorder heap is syntactically valid
+    && heap_valid(heap_seq(t.incoming.segments))
 }
+#[verifier::opaque]
+pub open spec fn heap_valid(s: Seq<Segment>) -> bool { forall|i: int| 0 <= i < s.len() ==> seg_valid(#[trigger] s[i]) }
 
 /// a syntactically valid segment
 pub open spec fn seg_valid(s: Segment) -> bool { s.text.wf() && s.text@.len() <= 65515 && s.header.data_offset == 5 }
@@ -587,6 +616,7 @@ impl Tcb {
 //@ contract
     ensures r.0.src_port == self.id.local.port, r.0.dst_port == self.id.remote.port, r.0.seq == seq,
         r.0.wnd == 0, r.0.ack == 0, r.0.urg == 0, r.0.ctl.0 == 0,
+        !r.0.ctl.sfin() && !r.0.ctl.ssyn() && !r.0.ctl.srst() && !r.0.ctl.spsh() && !r.0.ctl.sack() && !r.0.ctl.surg(),
 //@ end
 
 //@ item sim/elvis-core/src/protocols/tcp/tcb.rs :: impl Tcb / fn enqueue id=Tcb.enqueue
@@ -668,7 +698,6 @@ impl Tcb {
 
 //@ item sim/elvis-core/src/protocols/tcp/tcb.rs :: impl Tcb / fn ack_established_processing id=Tcb.ack_established_processing
 //@ start
-        broadcast use {lemma_with_flag_b, lemma_zero_flags};
 //@ contract
     requires rtx_wf(old(self).outgoing.retransmit@),
     ensures
@@ -701,12 +730,11 @@ impl Tcb {
         r.timeouts.time_wait is None,
         tcb_inv(r),
 //@ start
-        proof { reveal(rtx_wf); }
+        proof { reveal(rtx_wf); reveal(heap_valid); }
 //@ end
 
 //@ item sim/elvis-core/src/protocols/tcp/tcb.rs :: impl Tcb / fn open id=Tcb.open
 //@ start
-        broadcast use {lemma_with_flag_b, lemma_zero_flags};
 //@ contract
     ensures
         tcb_inv(r),
@@ -752,7 +780,6 @@ impl Tcb {
 
 //@ item sim/elvis-core/src/protocols/tcp/tcb.rs :: impl Tcb / fn close id=Tcb.close
 //@ start
-        broadcast use {lemma_with_flag_b, lemma_zero_flags};
 //@ contract
     requires tcb_inv(*old(self)),
     ensures
@@ -778,6 +805,21 @@ impl Tcb {
             ==> final(self).outgoing.retransmit@.last().segment.header.seq == add32(old(self).snd.nxt, old(self).outgoing.text@.len() as u32),   //# fin_after_unsegmentized_data [C03]
 //@ end
 
+//@ item sim/elvis-core/src/protocols/tcp/tcb.rs :: impl Tcb / fn abort id=Tcb.abort
+//@ contract
+    requires tcb_inv(*old(self)),
+    ensures
+        tcb_inv(*final(self)),
+        // (C03) ABORT never changes the state variable by itself (the caller deletes the TCB); it only replaces the queues by a RST
+        final(self).state == old(self).state && final(self).snd == old(self).snd && final(self).rcv == old(self).rcv && final(self).incoming == old(self).incoming,   //# abort_keeps_state [C03]
+        (old(self).state == State::SynReceived || old(self).state == State::Established || old(self).state == State::FinWait1
+            || old(self).state == State::FinWait2 || old(self).state == State::CloseWait)
+            ==> (final(self).outgoing.text@.len() == 0 && final(self).outgoing.retransmit@.len() == 0 && final(self).outgoing.oneshot@.len() == 1
+                 && final(self).outgoing.oneshot@[0].ctl.srst() && final(self).outgoing.oneshot@[0].seq == old(self).snd.nxt),   //# abort_sends_rst [C03]
+//@ after 1 `self.outgoing.reset();`
+                proof { reveal(rtx_wf); }
+//@ end
+
 //@ item sim/elvis-core/src/protocols/tcp/tcb.rs :: impl Tcb / fn status id=Tcb.status
 //@ contract
     ensures r == self.state,
@@ -789,7 +831,7 @@ impl Tcb {
 //@ rewrite `transmit\.segment\.clone\(\)` => `vx_segment_clone(&transmit.segment)` ## derived Clone has no Verus spec; routed through the contract-carrying wrapper
 //@ rewrite `pub fn segments\(` => `#[verifier::spinoff_prover] #[verifier::rlimit(200)] pub fn segments(` ## verifier attributes only
 //@ start
-        broadcast use {lemma_with_flag_b, lemma_zero_flags, axiom_vec_default};
+        broadcast use axiom_vec_default;
         let ghost text0 = self.outgoing.text@;
         let ghost rtx0 = self.outgoing.retransmit@;
         let ghost nxt0 = self.snd.nxt;
@@ -842,8 +884,7 @@ impl Tcb {
                         q_bytes(rtx0) >= 0, rtx_wf(rtx0),
                     decreases self.outgoing.text@.len(),
 //@ before 1 `let text = self.outgoing.text.cut(bytes);`
-                    broadcast use {lemma_with_flag_b, lemma_zero_flags};
-                    let ghost q_before = self.outgoing.retransmit@;
+                                let ghost q_before = self.outgoing.retransmit@;
                     let ghost cur_before = self.outgoing.text@;
                     let ghost done_before = text0.len() - cur_before.len();
 //@ after 1 `.push_back(Transmit::new(Segment::new(header, text)));`
@@ -898,8 +939,106 @@ impl Tcb {
             decreases self.outgoing.retransmit@.len() - vx_k,
 //@ end
 
+//@ item sim/elvis-core/src/protocols/tcp/tcb.rs :: impl Tcb / fn advance_time id=Tcb.advance_time
+//@ rewrite `if delta_time > self\.timeouts\.retransmission \{` => `if vx_dur_gt(delta_time, self.timeouts.retransmission) {` ## Duration comparison routed through the contract-carrying wrapper
+//@ rewrite `self\.timeouts\.retransmission -= delta_time;` => `self.timeouts.retransmission = vx_dur_sub(self.timeouts.retransmission, delta_time);` ## Duration -= routed through the contract-carrying wrapper
+//@ rewrite `if delta_time > time_wait \{` => `if vx_dur_gt(delta_time, time_wait) {` ## Duration comparison routed through the wrapper
+//@ rewrite `Some\(time_wait - delta_time\)` => `Some(vx_dur_sub(time_wait, delta_time))` ## Duration - routed through the wrapper
+//@ rewrite `for transmit in self\.outgoing\.retransmit\.iter_mut\(\) \{` => `let mut vx_k: usize = 0; while vx_k < self.outgoing.retransmit.len() { let transmit = &mut self.outgoing.retransmit[vx_k]; vx_k += 1;` ## VecDeque::iter_mut is outside Verus: expressed as an index loop
+//@ contract
+    requires tcb_inv(*old(self)),
+    ensures
+        tcb_inv(*final(self)),
+        final(self).state == old(self).state && final(self).snd == old(self).snd && final(self).rcv == old(self).rcv
+            && final(self).incoming == old(self).incoming && final(self).outgoing.text == old(self).outgoing.text
+            && final(self).outgoing.oneshot == old(self).outgoing.oneshot
+            && same_segments(final(self).outgoing.retransmit@, old(self).outgoing.retransmit@),   //# time_only_touches_timers [C17,C03]
+        // (C03) the connection is released by the 2*MSL wait exactly when the armed TIME-WAIT timer has run out
+        (r == AdvanceTimeResult::CloseConnection) == (old(self).timeouts.time_wait matches Some(tw) && dur_ns(delta_time) > dur_ns(tw)),   //# released_exactly_when_time_wait_expires [C03]
+        // after a retransmission timeout everything still on the queue is due again
+        dur_ns(delta_time) > dur_ns(old(self).timeouts.retransmission) ==>
+            forall|i: int| 0 <= i < final(self).outgoing.retransmit@.len() ==> (#[trigger] final(self).outgoing.retransmit@[i]).needs_transmit,   //# rto_marks_queue_for_retransmission [C01]
+//@ start
+        let ghost q0 = self.outgoing.retransmit@;
+        proof { reveal(rtx_wf); }
+//@ loop 1
+                invariant
+                    vx_k <= self.outgoing.retransmit@.len(),
+                    self.id == old(self).id && self.mtu == old(self).mtu && self.initiation == old(self).initiation && self.state == old(self).state
+                        && self.snd == old(self).snd && self.rcv == old(self).rcv && self.incoming == old(self).incoming
+                        && self.outgoing.text == old(self).outgoing.text && self.outgoing.oneshot == old(self).outgoing.oneshot
+                        && self.timeouts.time_wait == old(self).timeouts.time_wait,
+                    same_segments(self.outgoing.retransmit@, q0),
+                    forall|i: int| 0 <= i < vx_k ==> (#[trigger] self.outgoing.retransmit@[i]).needs_transmit,
+                decreases self.outgoing.retransmit@.len() - vx_k,
+//@ before 1 `if let Some(time_wait) = self.timeouts.time_wait`
+        proof {
+            reveal(rtx_wf);
+            assert forall|i: int| 0 <= i < self.outgoing.retransmit@.len() implies (#[trigger] self.outgoing.retransmit@[i]).segment.text.wf() && self.outgoing.retransmit@[i].segment.text@.len() <= 65535 by {
+                assert(self.outgoing.retransmit@[i].segment == q0[i].segment);
+            }
+        }
+//@ end
+
+}
+impl ProcessSegmentResult {
+//@ item sim/elvis-core/src/protocols/tcp/tcb.rs :: impl ProcessSegmentResult / fn should_delete_tcb id=ProcessSegmentResult.should_delete_tcb
+//@ contract
+    ensures r == deletes_tcb(self),
+//@ end
+}
+impl Tcb {
+//@ item sim/elvis-core/src/protocols/tcp/tcb.rs :: impl Tcb / fn segment_arrives id=Tcb.segment_arrives
+//@ rewrite `pub fn segment_arrives\(` => `#[verifier::exec_allows_no_decreases_clause] pub fn segment_arrives(` ## termination of the reorder loop is NOT verified here (each iteration pops one segment; process_segment never pushes)
+//@ contract
+    requires tcb_inv(*old(self)), seg_valid(segment),
+    ensures
+        // (C17) an arbitrary valid segment never crashes the endpoint and leaves it in a state satisfying the invariant
+        r == SegmentArrivesResult::Ok ==> tcb_inv(*final(self)),   //# invariant_preserved [C17]
+        final(self).id == old(self).id && final(self).mtu == old(self).mtu && final(self).initiation == old(self).initiation
+            && final(self).outgoing.text == old(self).outgoing.text && final(self).snd.nxt == old(self).snd.nxt && final(self).snd.iss == old(self).snd.iss,   //# never_sends_new_data [C17]
+        // (C01) bytes already buffered for the application are never altered
+        r == SegmentArrivesResult::Ok ==> (final(self).incoming.text@.len() >= old(self).incoming.text@.len()
+            && final(self).incoming.text@.subrange(0, old(self).incoming.text@.len() as int) == old(self).incoming.text@),   //# buffered_bytes_untouched [C01]
+//@ after 1 `self.incoming.segments.push(segment);`
+        proof {
+            reveal(heap_valid);
+            let s0 = heap_seq(old(self).incoming.segments);
+            let s1 = heap_seq(self.incoming.segments);
+            assert forall|i: int| 0 <= i < s1.len() implies seg_valid(#[trigger] s1[i]) by {
+                if s1[i] != segment {
+                    let k = choose|k: int| 0 <= k < s0.len() && s0[k] == s1[i];
+                    assert(seg_valid(s0[k]));
+                }
+            }
+        }
+//@ loop 1
+            invariant
+                tcb_inv(*self),
+                self.id == old(self).id && self.mtu == old(self).mtu && self.initiation == old(self).initiation
+                    && self.outgoing.text == old(self).outgoing.text && self.snd.nxt == old(self).snd.nxt && self.snd.iss == old(self).snd.iss,
+                self.incoming.text@.len() >= old(self).incoming.text@.len(),
+                self.incoming.text@.subrange(0, old(self).incoming.text@.len() as int) == old(self).incoming.text@,
+//@ before 1 `let segment = self.incoming.segments.pop().unwrap();`
+            proof { reveal(heap_valid); }
+            let ghost h0 = heap_seq(self.incoming.segments);
+            let ghost txt0 = self.incoming.text@;
+//@ after 1 `let segment = self.incoming.segments.pop().unwrap();`
+            proof {
+                assert forall|i: int| 0 <= i < heap_seq(self.incoming.segments).len() implies seg_valid(#[trigger] heap_seq(self.incoming.segments)[i]) by {
+                    assert(heap_seq(self.incoming.segments)[i] == h0[i + 1]);
+                }
+            }
+//@ after 1 `let receive_result = self.process_segment(segment);`
+            proof {
+                assert(self.incoming.text@.subrange(0, old(self).incoming.text@.len() as int)
+                    =~= self.incoming.text@.subrange(0, txt0.len() as int).subrange(0, old(self).incoming.text@.len() as int));
+            }
+//@ end
+}
+impl Tcb {
 //@ item sim/elvis-core/src/protocols/tcp/tcb.rs :: impl Tcb / fn process_segment id=Tcb.process_segment
-//@ rewrite `fn process_segment\(` => `#[verifier::spinoff_prover] #[verifier::rlimit(300)] fn process_segment(` ## verifier attributes only (own solver instance, larger resource limit)
+//@ rewrite `fn process_segment\(` => `#[verifier::spinoff_prover] #[verifier::rlimit(600)] fn process_segment(` ## verifier attributes only (own solver instance, larger resource limit)
 //@ rewrite `text\.slice\(already_received as usize\.\.\(already_received \+ accept\) as usize\);` => `text.slice_inner(SliceRange::from(already_received as usize..(already_received + accept) as usize));` ## Message::slice(impl Into<SliceRange>) is the generic one-line wrapper `self.slice_inner(range.into())`; inlined because generic Into is outside the verified fragment
 //@ rewrite `Some\(MSL \* 2\)` => `Some(vx_dur_mul(MSL, 2))` ## Duration * u32 routed through the contract-carrying wrapper
 //@ rewrite `Some\(2 \* MSL\)` => `Some(vx_dur_mul(MSL, 2))` ## u32 * Duration routed through the contract-carrying wrapper
@@ -910,7 +1049,6 @@ impl Tcb {
                         }
                     }
 //@ start
-        broadcast use {lemma_with_flag_b, lemma_zero_flags};
         let ghost seg0 = segment;
 //@ contract
     requires
@@ -974,5 +1112,50 @@ impl Tcb {
     ensures r == (self.snd.nxt == self.snd.una),
 //@ end
 }
+
+
+// ===========================================================================
+// CLOSED and LISTEN pseudo-states (free functions)
+// ===========================================================================
+//@ item sim/elvis-core/src/protocols/tcp/tcb.rs :: fn segment_arrives_closed id=segment_arrives_closed
+//@ rewrite `\[\]\.into_iter\(\)` => `Vec::<u8>::new().into_iter()` ## core::array::IntoIter is outside Verus; an empty Vec iterator is the same empty byte stream
+//@ contract
+    ensures
+        // RFC 9293 3.10.7.1: a RST is never answered; anything else is answered by a RST
+        seg.ctl.srst() ==> r is None,   //# never_answers_rst [C17,C03]
+        !seg.ctl.srst() ==> (r matches Some(h) && h.ctl.srst() && !h.ctl.ssyn() && !h.ctl.sfin()
+            && h.src_port == seg.dst_port && h.dst_port == seg.src_port
+            && (seg.ctl.sack() ==> h.seq == seg.ack && !h.ctl.sack())
+            && (!seg.ctl.sack() ==> h.seq == 0 && h.ctl.sack() && h.ack == seg.seq.wrapping_add(text_len))),   //# answers_with_rst [C17,C03]
+//@ end
+
+//@ item sim/elvis-core/src/protocols/tcp/tcb.rs :: enum ListenResult strip-attrs
+//@ end
+
+//@ item sim/elvis-core/src/protocols/tcp/tcb.rs :: fn segment_arrives_listen id=segment_arrives_listen
+//@ rewrite `\[\]\.into_iter\(\)` => `Vec::<u8>::new().into_iter()` ## core::array::IntoIter is outside Verus
+//@ rewrite `\.ok\(\)\s*\.map\(ListenResult::Response\)` => `.ok().map(|vx_h: TcpHeader| ListenResult::Response(vx_h))` ## enum constructor used as a function value is outside Verus; written as the equivalent closure
+//@ before 1 `Some(ListenResult::Tcb(tcb))`
+        proof {
+            reveal(heap_valid);
+            let hs = heap_seq(tcb.incoming.segments);
+            assert(hs.len() == 1);
+            assert(tcb.outgoing.retransmit@.len() == 1);
+            assert(tcb.outgoing.retransmit@.last() == tcb.outgoing.retransmit@[0]);
+        }
+//@ contract
+    requires seg_valid(segment), mtu >= 100,
+    ensures
+        // RFC 9293 3.10.7.2: RST ignored; ACK answered by RST; SYN creates a TCB in SYN-RECEIVED; anything else is dropped
+        segment.header.ctl.srst() ==> r is None,   //# ignores_rst [C03,C17]
+        (!segment.header.ctl.srst() && !segment.header.ctl.sack() && !segment.header.ctl.ssyn()) ==> r is None,   //# drops_other_segments [C03,C17]
+        (!segment.header.ctl.srst() && !segment.header.ctl.sack() && segment.header.ctl.ssyn()) ==> (r matches Some(ListenResult::Tcb(t))
+            && tcb_inv(t) && t.state == State::SynReceived && t.mtu == mtu
+            && t.snd.iss == iss && t.snd.una == iss && t.snd.nxt == add32(iss, 1)
+            && t.rcv.irs == segment.header.seq && t.rcv.nxt == add32(segment.header.seq, 1)
+            && t.outgoing.retransmit@.len() == 1 && t.outgoing.retransmit@[0].segment.header.seq == iss
+            && t.outgoing.retransmit@[0].segment.header.ctl.ssyn() && t.outgoing.retransmit@[0].segment.header.ctl.sack()
+            && t.outgoing.retransmit@[0].segment.header.ack == add32(segment.header.seq, 1)),   //# syn_creates_tcb_in_syn_received [C03,C12]
+//@ end
 
 } // verus!
